@@ -29,7 +29,8 @@ func init() {
 		Explanation: "(a) from the edge where the in-flight lookup finds a PUBREC marker for the packet id (a retransmission) no path reaches publishToSubscribers or retainMessage; " +
 			"(b) for QoS 2 every path to publishToSubscribers first records the PUBREC marker with Inflight.Set, and a resumed session takes the whole in-flight map over (Inflight.Clone), so the marker survives reconnects; " +
 			"processPubrel removes the marker only after writing PUBCOMP; " +
-			"(c) the PUBREC written on the duplicate edge carries a reason code below 0x80.",
+			"(c) the PUBREC written on the duplicate edge carries a reason code below 0x80; " +
+			"(d) the marker survives: the resend on session resume never deletes a stored PUBREC record, and processPublish hands the freshly stored marker to hooks.OnQosPublish (persistence) guarded by the result of Inflight.Set.",
 		NotDecided: []string{"counting deliveries in a history", "interleaving with other clients' traffic"},
 		Run:        runC08,
 	})
@@ -162,7 +163,8 @@ func init() {
 		Technique: "who-may-delete table over every (*Inflight).Delete call site; ordering rules in attachClient / ResendInflightMessages / processPubrec",
 		Explanation: "(a) every call site of (*Inflight).Delete lies in a function whose role makes the deletion legitimate: acknowledgement handler, expiry/clear, resend of a terminal acknowledgement (guarded by type), or rollback of an enqueue that failed (after OnPublishDropped); any other site deletes an unacknowledged message; " +
 			"(b) on a resumed session attachClient resends in-flight messages after the CONNACK; ResendInflightMessages sets DUP on PUBLISH before writing and never assigns a new packet id; " +
-			"(c) processPubrec replaces the stored PUBLISH by a PUBREL with the same id before writing it.",
+			"(c) processPubrec replaces the stored PUBLISH by a PUBREL with the same id before writing it; " +
+			"(e) ResendInflightMessages hands every resumed record to hooks.OnQosPublish before the write that may fail (the takeover deleted the stored rows under the same client id).",
 		NotDecided: []string{"actual redelivery contents and timing", "clean-start semantics (C14)"},
 		Run:        runC09,
 	})
